@@ -19,6 +19,11 @@ import (
 	"go.dedis.ch/kyber/v4/group/edwards25519vartime"
 	"go.dedis.ch/kyber/v4/group/p256"
 	"go.dedis.ch/kyber/v4/pairing"
+	"go.dedis.ch/kyber/v4/pairing/bls12381/circl"
+	"go.dedis.ch/kyber/v4/pairing/bls12381/gnark"
+	"go.dedis.ch/kyber/v4/pairing/bls12381/kilic"
+	"go.dedis.ch/kyber/v4/pairing/bn254"
+	"go.dedis.ch/kyber/v4/pairing/bn256"
 	"go.dedis.ch/kyber/v4/proof"
 	"go.dedis.ch/kyber/v4/share"
 	"go.dedis.ch/kyber/v4/sign/bdn"
@@ -239,6 +244,22 @@ func freshSuite(gname string) raceSuite {
 	return nil
 }
 
+func freshPairing(name string) pairing.Suite {
+	switch name {
+	case "bn256":
+		return bn256.NewSuite()
+	case "bn254":
+		return bn254.NewSuite()
+	case "kilic":
+		return kilic.NewBLS12381Suite()
+	case "circl":
+		return circl.NewSuite()
+	case "gnark":
+		return gnark.NewSuite()
+	}
+	return nil
+}
+
 // raceSchemeScenarios: suites, pairings and scheme objects with shared keys.
 func raceSchemeScenarios() []raceScenario {
 	var out []raceScenario
@@ -255,6 +276,10 @@ func raceSchemeScenarios() []raceScenario {
 		}
 		out = append(out,
 			raceScenario{"suite", "Point/Scalar constructors", gname, func() (func() string, string) {
+				s := freshSuite(gname) // a suite object nothing has used yet
+				if s == nil {
+					return nil, ""
+				}
 				return func() string {
 					p, x := s.Point(), s.Scalar()
 					p.Base()
@@ -305,12 +330,20 @@ func raceSchemeScenarios() []raceScenario {
 				}, "true"
 			}},
 			raceScenario{"suite", "Hash", gname, func() (func() string, string) {
-				f := func() string { h := s.Hash(); h.Write(msg); return kc.HexB(h.Sum(nil)) }
-				return f, f()
+				s, w := freshSuite(gname), freshSuite(gname)
+				if s == nil {
+					return nil, ""
+				}
+				f := func(s raceSuite) string { h := s.Hash(); h.Write(msg); return kc.HexB(h.Sum(nil)) }
+				return func() string { return f(s) }, f(w)
 			}},
 			raceScenario{"suite", "XOF", gname, func() (func() string, string) {
-				f := func() string { x := s.XOF(msg); b := make([]byte, 32); x.Read(b); return kc.HexB(b) }
-				return f, f()
+				s, w := freshSuite(gname), freshSuite(gname)
+				if s == nil {
+					return nil, ""
+				}
+				f := func(s raceSuite) string { x := s.XOF(msg); b := make([]byte, 32); x.Read(b); return kc.HexB(b) }
+				return func() string { return f(s) }, f(w)
 			}},
 		)
 	}
@@ -353,6 +386,22 @@ func raceSchemeScenarios() []raceScenario {
 			return func() string { return fmt.Sprint(scheme.Verify(pub2, msg, sig) == nil) }, "true"
 		}})
 	}
+	// a pairing suite nothing has used yet: its accessors, constructors and the first pairings run concurrently
+	for _, p := range groups.Pairings() {
+		p := p
+		out = append(out, raceScenario{"pairing-" + p.Name, "Suite accessors", p.Name, func() (func() string, string) {
+			s, w := freshPairing(p.Name), freshPairing(p.Name)
+			if s == nil || w == nil {
+				return nil, ""
+			}
+			f := func(s pairing.Suite) string {
+				b1, b2 := s.G1().Point().Base(), s.G2().Point().Base()
+				e := s.Pair(b1, b2)
+				return rmar(b1) + rmar(b2) + rmar(e) + rmar(s.GT().Point().Null()) + rsmar(s.G1().Scalar().One())
+			}
+			return func() string { return f(s) }, f(w)
+		}})
+	}
 	// BDN mask clone on a shared mask
 	if ps := groups.Pairings(); len(ps) > 0 {
 		p := ps[0]
@@ -367,11 +416,17 @@ func raceSchemeScenarios() []raceScenario {
 			}
 			m.SetBit(1, true)
 			m.SetBit(3, true)
-			f := func() string {
+			w, err := bdn.NewMask(p.G2.Group, pubs, nil)
+			if err != nil {
+				return nil, ""
+			}
+			w.SetBit(1, true)
+			w.SetBit(3, true)
+			f := func(m *bdn.Mask) string {
 				c := m.Clone()
 				return kc.HexB(c.Mask()) + fmt.Sprint(c.CountEnabled())
 			}
-			return f, f()
+			return func() string { return f(m) }, f(w)
 		}})
 	}
 	// BDN: clones of one shared mask, each with its own bits, aggregated concurrently
